@@ -594,10 +594,11 @@ func (p *Path) mkRange(x Value, site ssa.Instruction) Value {
 			if p.side["permute"] == "one" && n > 1 {
 				// one designated site: the first map range for which the schedule says
 				// "here" gets an arbitrary order, every other range the canonical one
-				if done, _ := p.side["permuted"].(bool); done || p.choose("permute-this-range", 2) == 0 {
+				left, _ := p.side["permuteBudget"].(int)
+				if left <= 0 || p.choose("permute-this-range", 2) == 0 {
 					goto canonical
 				}
-				p.side["permuted"] = true
+				p.side["permuteBudget"] = left - 1
 				p.side["permuteHere"] = true
 			}
 			if p.permuteOn() && n > 1 {
@@ -676,10 +677,8 @@ func (p *Path) permuteOn() bool {
 		if b, isB := v.(bool); isB {
 			return b
 		}
-		// "one": permute exactly the designated range
-		done, _ := p.side["permuted"].(bool)
+		// "one": permute exactly the designated range(s)
 		designated, _ := p.side["permuteHere"].(bool)
-		_ = done
 		return designated
 	}
 	return p.E.Cfg.PermuteMaps
